@@ -15,7 +15,7 @@ RULE = (
     "width-tracked values; non-trivial = accepted, some return bit depends on an input and the body uses >=1 operator/statement "
     "form; distinct by source text"
 )
-DECIDING = ["accepted", "rows_exact", "truth_table_rows"]
+DECIDING = ["accepted", "rows_exact", "truth_table_rows", "reach:translate_expression", "reach:QintImp.add", "reach:QintImp.gt", "reach:Qtype.fill", "reach:ASTRewriter.visit_If", "reach:ASTRewriter.visit_For"]
 ASSUMPTIONS = [
     "typing discipline D of DESIGN section 2 (literal widths 2/4/6/8/12/16 by value, +-&|^ and if-expressions the wider operand, * the smallest listed width >= 2*max)",
     "inputs on which an intermediate leaves its range are judged only on the low bits that wrap-around determines, and only for ring-fragment programs",
@@ -72,6 +72,33 @@ REGRESSION = [
     _r("def f(a: Qlist[Qint[2], 3]) -> Tuple[Qint[2], Qint[2], Qint[2]]:\n    return (max(a), min(a), sum(a))\n", [["a", ["Qint2"] * 3]], ["Qint2", "Qint2", "Qint2"]),
     _r("def f(c: Qchar) -> bool:\n    return ord(c) == 3\n", [["c", "Qchar"]], "bool"),
 ]
+
+
+def setup():
+    from qlasskit.ast2ast.astrewriter import ASTRewriter
+    from qlasskit.ast2ast.constantfolder import ConstantFolder
+    from qlasskit.ast2ast.replacemultitargetassign import ReplaceMultiTargetAssign
+    from qlasskit.ast2logic import t_expression, t_statement
+    from qlasskit.types.qfixed import QfixedImp
+    from qlasskit.types.qint import QintImp
+    from qlasskit.types.qtype import Qtype
+
+    from ..monitors import reach
+
+    named = {}
+    for nm in ("add", "sub", "mul", "mul_even_const", "mod", "eq", "neq", "gt", "lt", "lte", "gte", "bitwise_generic"):
+        named[f"QintImp.{nm}"] = QintImp.__dict__[nm]
+    for nm in ("add", "sub", "mul", "gt", "eq", "integer_part"):
+        named[f"QfixedImp.{nm}"] = QfixedImp.__dict__[nm]
+    for nm in ("fill", "crop", "shift_left", "shift_right", "bitwise_not"):
+        named[f"Qtype.{nm}"] = Qtype.__dict__[nm]
+    for nm in ("visit_If", "visit_For", "visit_AugAssign", "visit_Subscript", "visit_Assign", "visit_BinOp", "visit_Call"):
+        named[f"ASTRewriter.{nm}"] = ASTRewriter.__dict__[nm]
+    named["ConstantFolder.visit_BinOp"] = ConstantFolder.__dict__["visit_BinOp"]
+    named["ReplaceMultiTargetAssign.visit_Assign"] = ReplaceMultiTargetAssign.__dict__["visit_Assign"]
+    named["translate_expression"] = t_expression.translate_expression
+    named["translate_statement"] = t_statement.translate_statement
+    reach.install(named)
 
 
 def _profiles():
@@ -149,6 +176,9 @@ def check(case):
                     fails.append({"kind": "truth_table", "msg": f"{pname}: {msg}", "pred": None})
             except Exception as e:
                 fails.append({"kind": "truth_table_exception", "msg": f"{pname}: truth_table() raised {type(e).__name__}: {e}", "pred": None})
+    from ..monitors import reach
+
+    cnt.update(reach.take())
     if case.get("stream") == "outside" and not fails:
         cnt["outside_accepted_and_agreeing"] = 1
     return {"status": "checked", "key": src, "nontrivial": nontrivial and bool(case.get("feat")), "evals": sp.N * len(accepted), "fails": fails[:4], "counters": cnt, "cov": cov,
